@@ -24,10 +24,15 @@ import (
 )
 
 type relayScript struct {
-	rec   *recorder
-	prog  prog
-	hist  int
-	bdone chan struct{}
+	rec  *recorder
+	prog prog
+	hist int
+	// failover programs: the first try-list server relays one message and drops before the
+	// client answers; the next server goes through the same relay
+	cmu       sync.Mutex
+	conns     int
+	firstSeen chan struct{}
+	bdone     chan struct{}
 	// how many answers the backend should wait for before it gives up waiting (pacing only)
 	expect int
 }
@@ -65,6 +70,20 @@ func TestRelay(t *testing.T) {
 		s := get(bc.Name)
 		if s == nil {
 			return
+		}
+		s.cmu.Lock()
+		s.conns++
+		nth := s.conns
+		s.cmu.Unlock()
+		if s.prog.Failover && nth == 1 {
+			s.rec.add(tracefmt.Rec{"ev": "send", "tag": "x1", "bid": 77})
+			_ = bc.WritePacket(rig.LoginPluginMsg, (&mcwire.Buf{}).VarInt(77).String("fml:loginwrapper").Raw([]byte("x1")).B)
+			s.rec.add(tracefmt.Rec{"ev": "sendret", "tag": "x1"})
+			select {
+			case <-s.firstSeen:
+			case <-time.After(6 * time.Second):
+			}
+			return // the connection drops with its message unanswered
 		}
 		var once sync.Once
 		readDone := func() { once.Do(func() { close(s.bdone) }) }
@@ -121,7 +140,13 @@ func TestRelay(t *testing.T) {
 		t.Fatal(err)
 	}
 	defer be.Close()
-	r, err := rig.New(rig.Options{EventMgr: mgr, Backends: map[string]*rig.Backend{"forge": be}, Try: []string{"forge"}})
+	be2, err := rig.NewBackend(be.Behave)
+	if err != nil {
+		t.Fatal(err)
+	}
+	defer be2.Close()
+	r, err := rig.New(rig.Options{EventMgr: mgr, Backends: map[string]*rig.Backend{"forge": be, "forge2": be2},
+		Try: []string{"forge", "forge2"}})
 	if err != nil {
 		t.Fatal(err)
 	}
@@ -154,7 +179,7 @@ func TestRelay(t *testing.T) {
 			}()
 			name := fmt.Sprintf("fr%d_%d", seed%1000, hi)
 			rec := &recorder{}
-			s := &relayScript{rec: rec, prog: p, hist: hi, bdone: make(chan struct{})}
+			s := &relayScript{rec: rec, prog: p, hist: hi, bdone: make(chan struct{}), firstSeen: make(chan struct{})}
 			// pacing: answers the backend may wait for = distinct real message ids the client answers
 			seen := map[int]bool{}
 			for _, rs := range p.Resps {
@@ -176,9 +201,24 @@ func TestRelay(t *testing.T) {
 			lc := &liveClient{c: c, rec: rec, proto: rig.P1_20, relayed: map[int]string{}}
 			_ = c.WritePacket(0, rig.HandshakePayload(rig.P1_20, "localhost\x00FML3\x00", 25565, 2))
 			_ = c.WritePacket(rig.SBLoginStart, rig.LoginStartPayload(rig.P1_20, name, rig.OfflineUUID(name)))
+			shift := 0
+			if p.Failover {
+				// the first server's message arrives; that server drops; the second server's
+				// messages arrive; only then the client answers the first one (late)
+				rig.WaitFor(5*time.Second, func() bool { lc.drain(quiet); return len(lc.relayed) >= 1 || lc.closed })
+				close(s.firstSeen)
+				shift = 1
+			}
 			// wait (generously) until all relayed messages reached the client
-			rig.WaitFor(5*time.Second, func() bool { lc.drain(quiet); return len(lc.relayed) >= p.Pre || lc.closed })
+			rig.WaitFor(8*time.Second, func() bool { lc.drain(quiet); return len(lc.relayed) >= p.Pre+shift || lc.closed })
+			if p.Failover && !lc.closed {
+				lc.respond(1, true, []byte{1, 99, 0, 0})
+				lc.drain(quiet / 4)
+			}
 			for k, rs := range p.Resps {
+				if shift == 1 && rs.ID >= 1 && rs.ID <= p.Pre {
+					rs.ID++ // client-side ids of the second server's messages follow the first one's
+				}
 				if lc.closed || lc.success {
 					break
 				}
@@ -191,7 +231,7 @@ func TestRelay(t *testing.T) {
 			}
 			// the backend finished reading: now it completes the join; wait for login success
 			rig.WaitFor(5*time.Second, func() bool { lc.drain(quiet); return lc.success || lc.closed })
-			rec.add(tracefmt.Rec{"ev": "end", "settled": !lc.closed, "success": lc.success, "closed": lc.closed})
+			rec.add(tracefmt.Rec{"ev": "end", "settled": !lc.closed && !p.Failover, "success": lc.success, "closed": lc.closed})
 			mu.Lock()
 			rec.mu.Lock()
 			for _, x := range rec.recs {
